@@ -40,6 +40,8 @@ type c11Pkt struct {
 	proto   slayers.L4ProtocolType
 	derived int // -1: no port derivable (default end-host port); -2: not asserted
 	setNet  func(*slayers.SCION)
+	hbh     bool // hop-by-hop extension header in front of the upper layer
+	e2e     bool // end-to-end extension header in front of the upper layer
 }
 
 var c11Ports = []uint16{1, 79, 80, 1023, 1024, 1025, 30040, 30041, 30042, 31000, 32767, 32768, 65534, 65535}
@@ -138,6 +140,18 @@ func lastHopPacket(key []byte, dst addr.Host, p c11Pkt, now time.Time) ([]byte, 
 		return nil, err
 	}
 	ls := []gopacket.SerializableLayer{s}
+	next := &s.NextHdr
+	if p.hbh {
+		x := &slayers.HopByHopExtn{Options: []*slayers.HopByHopOption{{OptType: 77, OptData: []byte{1, 2, 3}}}}
+		*next, next = slayers.HopByHopClass, &x.NextHdr
+		ls = append(ls, x)
+	}
+	if p.e2e {
+		x := &slayers.EndToEndExtn{Options: []*slayers.EndToEndOption{{OptType: 99, OptData: []byte{9, 8, 7, 6, 5}}}}
+		*next, next = slayers.End2EndClass, &x.NextHdr
+		ls = append(ls, x)
+	}
+	*next = p.proto
 	for _, l := range p.l4 {
 		switch x := l.(type) {
 		case *slayers.UDP:
@@ -156,12 +170,12 @@ func lastHopPacket(key []byte, dst addr.Host, p c11Pkt, now time.Time) ([]byte, 
 
 func TestC11(t *testing.T) {
 	rec := evid.New("C11", "rapid: dispatched-port range {empty '-', 'all', [a,b] with boundary-heavy a,b} x optional router-configuration override x configuration order {range before the internal interface, after it, real start-up order through the Connector} x "+
-		"last-hop packets to IPv4/IPv6/service hosts with L4 in {UDP, TCP, SCMP echo/traceroute reply and request, SCMP errors of every type quoting a UDP packet, unknown protocol}, ports/identifiers boundary-heavy around the range and 30041. "+
+		"last-hop packets to IPv4/IPv6/service hosts with L4 in {UDP, TCP, SCMP echo/traceroute reply and request, SCMP errors of every type quoting a UDP packet, unknown protocol}, optionally behind hop-by-hop and/or end-to-end extension headers, ports/identifiers boundary-heavy around the range and 30041. "+
 		"Oracle: documented table; observed = underlay address set by the real internal link. Non-trivial: derived port outside the range, range configured after the internal interface, or service destination.")
 	defer rec.Flush(t)
 	rec.Assume("port 0 is not generated (undefined by the documents)", "the Connector path is exercised through the same calls, in the same order, as control.ConfigDataplane makes")
 	rec.Require("order_before", "order_after", "order_connector", "connector_override", "range_empty", "range_all", "range_ab", "in_range", "out_of_range_redirected", "svc_destination", "ipv6_host",
-		"l4_udp", "l4_tcp", "l4_echo_reply", "l4_traceroute_reply", "l4_request", "l4_scmp_error")
+		"l4_udp", "l4_tcp", "l4_echo_reply", "l4_traceroute_reply", "l4_request", "l4_scmp_error", "behind_extension_header")
 	rapid.Check(t, func(rt *rapid.T) {
 		// ---- range
 		var a, b uint16
@@ -254,6 +268,13 @@ func TestC11(t *testing.T) {
 		}
 		for i := 0; i < 12; i++ {
 			p := genC11Pkt(rt, effA, effB)
+			if rapid.IntRange(0, 2).Draw(rt, "extensionHeaders") == 0 {
+				p.hbh, p.e2e = rapid.Bool().Draw(rt, "hbh"), rapid.Bool().Draw(rt, "e2e")
+				if p.hbh || p.e2e {
+					p.desc += fmt.Sprintf(" behind extension headers (hbh=%v e2e=%v)", p.hbh, p.e2e)
+					labels = append(labels, "behind_extension_header")
+				}
+			}
 			dstKind := rapid.SampledFrom([]string{"ipv4", "ipv4", "ipv6", "svc"}).Draw(rt, "dstKind")
 			dst := addr.MustParseHost("10.0.0.50")
 			switch dstKind {
